@@ -65,7 +65,7 @@ Section DirAll.
     s_queue st = (ms_ext_at DB p, dl) :: q -> s_cur st = [] -> s_level st <= 3 ->
     ps_e2i_ok t st X -> (forall j, (j < length kids)%nat -> ~ In (p ++ [j]) X) ->
     exists st2 last',
-      ps_fold (ps_record ptr isz) (ps_begin_dir st q (ms_ext_at DB p), None)
+      ps_fold (ps_record ptr isz) (ps_begin_dir st q (ps_blocks_of (ms_ext_at DB p) dl ++ s_seen st), None)
               (map ms_enc (ms_dir_recs dt t DB FB p)) = POk (st2, last') /\
       ps_end_dir st2 = ps_spec_dir dt t DB FB p dl kids st /\
       ps_e2i_ok t (ps_spec_dir dt t DB FB p dl kids st) (X ++ ps_kid_positions p 0 (length kids)).
@@ -147,7 +147,7 @@ Section DirAll.
     ps_e2i_ok t st X -> (forall j, (j < length kids)%nat -> ~ In (p ++ [j]) X) ->
     exists data st2 last',
       ms_img_read img' (ms_ext_at DB p) dl = Some data /\
-      ps_scan (ps_record ptr isz) (S (length data)) data 0 dl (ps_begin_dir st q (ms_ext_at DB p), None)
+      ps_scan (ps_record ptr isz) (S (length data)) data 0 dl (ps_begin_dir st q (ps_blocks_of (ms_ext_at DB p) dl ++ s_seen st), None)
         = POk (st2, last') /\
       ps_end_dir st2 = ps_spec_dir dt t DB FB p dl kids st /\
       ps_e2i_ok t (ps_spec_dir dt t DB FB p dl kids st) (X ++ ps_kid_positions p 0 (length kids)).
